@@ -318,6 +318,31 @@ func runC03(c *mon.Ctx) {
 				}
 				u, err := impl.NewEventFromUntrustedJSON(j)
 				check("untrusted", u, err)
+				if vr.Chance(0.25) {
+					// the proto-event brings a "signatures" member of its own (the make_join template of another server is
+					// such a proto-event): whatever Build makes of it re-parses; refusing is an answer too, except for a
+					// well-formed entry of another server
+					sigs := gen.Pick(vr, []string{`{"other.example":{"ed25519:x":"AAAA"}}`, `{"other.example":"x"}`, `{"other.example":5}`, `{"other.example":["a"]}`, `{"other.example":{"ed25519:x":5}}`, `{"other.example":null}`, `"x"`, `[]`, `null`, `{}`})
+					ps2 := ps
+					ps2.Signatures = []byte(sigs)
+					var ev2 gmsl.PDU
+					var err2 error
+					site, msg, pan := mon.Guard(func() { ev2, err2 = buildEvent(ver, ps2, id, baseTime) })
+					c.Count("built_with_proto_signatures")
+					switch {
+					case pan:
+						c.Failf("build:panic:"+site, "Build panics on a proto-event with signatures %s: %s", sigs, msg)
+					case err2 != nil && (sigs == `{"other.example":{"ed25519:x":"AAAA"}}` || sigs == `{}`):
+						c.Failf("build:refuses-valid-proto", "Build(v%s) refuses a proto-event with signatures %s: %v", ver, sigs, err2)
+					case err2 == nil:
+						u2, perr := impl.NewEventFromUntrustedJSON(ev2.JSON())
+						if perr != nil {
+							c.Failf("roundtrip:untrusted:error:proto-signatures", "Build(v%s) accepts a proto-event with signatures %s, and the event it builds is refused as untrusted input: %v\n%s", ver, sigs, perr, ev2.JSON())
+						} else if u2.EventID() != ev2.EventID() || u2.Redacted() {
+							c.Failf("roundtrip:untrusted:proto-signatures", "the event built from a proto-event with signatures %s re-parses as %s (redacted=%v), built %s", sigs, u2.EventID(), u2.Redacted(), ev2.EventID())
+						}
+					}
+				}
 				tr, err := impl.NewEventFromTrustedJSON(j, false)
 				check("trusted", tr, err)
 				hj, err := ev.ToHeaderedJSON()
@@ -328,6 +353,14 @@ func runC03(c *mon.Ctx) {
 					if p := check("headered", h, err); p != nil && p.Version() != ver {
 						c.Failf("roundtrip:headered:version", "headered re-parse reports version %q, want %q", p.Version(), ver)
 					}
+					// the headered form without the (optional) _event_id, and the trusted parser given no ID: the ID is the
+					// one the event has
+					hv := ref.MustParse(hj)
+					hv.Del("_event_id")
+					h2, err := gmsl.NewEventFromHeaderedJSON(gen.Plain().Bytes(hv), false)
+					check("headered-without-event-id", h2, err)
+					t2, err := impl.NewEventFromTrustedJSONWithEventID("", j, false)
+					check("trusted-with-empty-event-id", t2, err)
 				}
 				if t.EventIDFormat < 2 {
 					return
